@@ -214,6 +214,7 @@ class Facts:
         self.impls = []
         self.consts = {}
         self.traits = {}
+        self.promoted = {}
         self.meta = None
         t = time.time()
         with open(path) as f:
@@ -234,6 +235,8 @@ class Facts:
                     self.consts[r["id"]] = r
                 elif t_ == "trait":
                     self.traits[r["id"]] = r
+                elif t_ == "promoted":
+                    self.promoted[r["id"]] = r
                 elif t_ == "meta":
                     self.meta = r
         if self.meta is None:
